@@ -33,7 +33,7 @@ def ens_case(draw):
     return {'sig': sig, 'nens': draw(st.integers(1, 8)), 'nproc': draw(st.integers(1, 8)),
             'mode': draw(st.sampled_from(['single', 'flip'])), 'noise': draw(st.sampled_from([0.0, 0.05, 0.2, 1.0])),
             'cap': draw(st.sampled_from([1, 2, 3, 3, 9, 14])), 'seed': draw(st.integers(0, 2**31 - 1)),
-            'stage': draw(st.sampled_from([0, 0, 1, 2, 3, 4, 5, 6]))}
+            'stage': draw(st.sampled_from([0, 0, 1, 2, 3, 4, 5, 6, 7, 8]))}
 
 
 # option sets handed to the ensemble routine; a member is the decomposition of x +- noise *with the requested options*
@@ -48,6 +48,9 @@ STAGE_OPTS = [
     # error) - a result may only come back when every member converged with the noise it was given
     {'imf_opts': {'max_iters': 6, 'sd_thresh': 0.02}},
     {'imf_opts': {'max_iters': 4, 'sd_thresh': 0.05}},
+    # a sift threshold that binds (members stop after the first component or two)
+    {'sift_thresh': 40.0},
+    {'sift_thresh': 150.0, 'envelope_opts': {'interp_method': 'pchip'}},
 ]
 
 
